@@ -90,6 +90,17 @@ ANN_LINES = ["---@class A", "---@class B : A", "---@field x number", "---@field 
              "---@field", "---@alias", "---@type fun(", "---@type table<", "---@type (A", "---@", "---@type A|", "---|'x'"]
 
 
+# luahelper.json contents: ordinary, malformed, and settings whose TEXT ends up inside regular expressions
+JSON_CFGS = ["{}", '{"BaseDir":"./"}', '{"IgnoreModules":["x"]}', "{", "[]", "",
+             '{"ReferFrameFiles":[{"Name":"imp(","Type":0,"SuffixFlag":1}]}',
+             '{"ReferFrameFiles":[{"Name":"a[","Type":1,"SuffixFlag":0},{"Name":"*","Type":0,"SuffixFlag":1}]}',
+             '{"IgnoreFileErr":["("],"IgnoreFileOrFloder":["[a"]}',
+             '{"IgnoreFileErrTypes":[{"File":"(","Types":[1]}]}',
+             '{"PathSeparator":"(","ProjectFiles":["f0.lua"]}',
+             '{"OpenErrorTypes":[22,23,24,25,29,99,-1],"IgnoreErrorTypes":[0,1,2,300]}',
+             '{"GlobalVar":["("],"IgnoreVar":["*"],"AssocialList":["(", "txt"],"OtherDir":"("}']
+
+
 def gen_server(rng, tier):
     n = {"quick": 600, "thorough": 20000, "search": 300}[tier]
     out = []
@@ -110,8 +121,8 @@ def gen_server(rng, tier):
                 text = text[:i] + rng.choice(["(", "'", "[[", "--[[", "end", " = ", "\\", "function "]) + text[i:]
             files.append(("f%d.lua" % f if f < 2 else "sub/f2.lua", text))
         items = ["F:%s:%s" % (hx(p), hx(t)) for p, t in files]
-        if rng.random() < 0.2:
-            items.append("F:%s:%s" % (hx("luahelper.json"), hx(rng.choice(["{}", '{"BaseDir":"./"}', '{"IgnoreModules":["x"]}', "{", "[]", ""]))))
+        if rng.random() < 0.3:
+            items.append("F:%s:%s" % (hx("luahelper.json"), hx(rng.choice(JSON_CFGS))))
         i = rng.randrange(nfiles)
         items.append("S:open:%d" % i)
         text = files[i][1]
